@@ -1020,6 +1020,8 @@ def diff(a, b, path=''):
         return None
     if isinstance(a, tuple) and isinstance(b, tuple) and a and b and a[0] == b[0]:
         k = a[0]
+        if k in ('list', 'tuple') and len(a[1]) != len(b[1]):
+            return f"{path}: {k} of length {len(a[1])} -> length {len(b[1])}"
         if k in ('list', 'tuple') and len(a[1]) == len(b[1]):
             for i, (x, y) in enumerate(zip(a[1], b[1])):
                 d = diff(x, y, f"{path}[{i}]")
@@ -1738,6 +1740,8 @@ class Harness:
 
     # ------------------------------------------------------------ ownership: two-step histories
     MUTATORS = ('append', 'extend', 'insert', 'pop', 'reverse', 'clear', '__setitem__')
+    RESULT_OPS = ('del [0]', 'op *= same', 'op *= 2', 'op += same', 'op -= same', 'op /= same', 'op * same', 'op + same', 'op ** 2', 'op **= 2',
+                  'op == same', '[0]', '[:]', 'iterate')
 
     @staticmethod
     def is_listobj(x):
@@ -1757,6 +1761,8 @@ class Harness:
             return self._valued_before
         if isinstance(x, list):
             return 'python-list'
+        if isinstance(x, (np.ndarray, tuple)):
+            return type(x).__name__
         try:
             return 'multi-valued' if len(x) > 1 else 'single-valued'
         except Exception:
@@ -1775,7 +1781,14 @@ class Harness:
             except Exception:
                 e = copy.deepcopy(x)
             f = {'append': lambda: x.append(e), 'extend': lambda: x.extend(copy.deepcopy(x)), 'insert': lambda: x.insert(0, e), 'pop': lambda: x.pop(),
-                 'reverse': lambda: x.reverse(), 'clear': lambda: x.clear(), '__setitem__': lambda: x.__setitem__(0, e)}[m]
+                 'reverse': lambda: x.reverse(), 'clear': lambda: x.clear(), '__setitem__': lambda: x.__setitem__(0, e),
+                 # operators and in-place operators with the object as left operand (they are specified to build new objects)
+                 'op *= same': lambda: operator.imul(x, copy.deepcopy(x)), 'op *= 2': lambda: operator.imul(x, 2.0),
+                 'op += same': lambda: operator.iadd(x, copy.deepcopy(x)), 'op -= same': lambda: operator.isub(x, copy.deepcopy(x)),
+                 'op /= same': lambda: operator.itruediv(x, copy.deepcopy(x)), 'op * same': lambda: operator.mul(x, copy.deepcopy(x)),
+                 'op + same': lambda: operator.add(x, copy.deepcopy(x)), 'op ** 2': lambda: operator.pow(x, 2),
+                 'op **= 2': lambda: operator.ipow(x, 2), 'op == same': lambda: operator.eq(x, copy.deepcopy(x)),
+                 '[0]': lambda: x[0], '[:]': lambda: x[:], 'iterate': lambda: [y for y in x], 'del [0]': lambda: x.__delitem__(0)}[m]
         return self.guarded(lambda: f(), [], {})[0]
 
     def ownership(self, key, f, pristine, roles):
@@ -1789,14 +1802,23 @@ class Harness:
             return False
         objs = list(args) + [kw[k] for k in sorted(kw)]
         rl = list(roles) + [f"arg:{k}" for k in sorted(kw)]
-        targets = [i for i, x in enumerate(objs) if (self.is_listobj(x) or (isinstance(x, list) and x)) and x is not res]
+        # arguments that are mutable containers or arrays: another object, a list (of arrays), an ndarray, a tuple of arrays
+        container = lambda x: self.is_listobj(x) or (isinstance(x, (list, tuple)) and len(x) > 0 and _arrays_of(x)) or \
+            (isinstance(x, list) and len(x) > 0) or (isinstance(x, np.ndarray) and x.size > 0)
+        targets = [i for i, x in enumerate(objs) if container(x) and x is not res]
+        # the reverse direction applies LIST mutators to the argument, so it needs an argument that holds a list.  In-place
+        # writes into an ndarray argument afterwards are excluded: constructors keep the caller's arrays by reference
+        # (SE3(T).A is T) -- no library call writes through such a reference; counted as a statistic below
+        targets_b = [i for i in targets if self.is_listobj(objs[i]) or isinstance(objs[i], list)]
         if not targets:
             return False
         if any(a is b for a in _arrays_of(res) for i in targets for b in _arrays_of(objs[i])):
             ctx.count('results_holding_the_arguments_arrays_by_reference')
-        call_txt = f"r = {key}({', '.join(srepr(x, 100) for x in pristine[0])}{', ' if pristine[1] else ''}{', '.join(k + '=' + srepr(v, 60) for k, v in pristine[1].items())})"
-        for m in self.MUTATORS:
-            # (a) mutate the result, look at the arguments
+        pristine_objs = list(pristine[0]) + [pristine[1][k] for k in sorted(pristine[1])]
+        call_txt = f"r = {key.replace('.__call__', '')}(" + ', '.join([srepr(x, 100) for x in pristine[0]] +
+                                                                       [k + '=' + srepr(v, 100) for k, v in pristine[1].items()]) + ')'
+        for m in self.MUTATORS + self.RESULT_OPS:
+            # (a) mutate the result (documented mutators, operators, in-place operators), look at the arguments
             args, kw = copy.deepcopy(pristine)
             ok, res = self.guarded(f, args, kw)
             if not ok:
@@ -1809,12 +1831,12 @@ class Harness:
             for i, b in zip(targets, before):
                 a = snap(objs[i])
                 if a != b and objs[i] is not res:
-                    ctx.fail(f"ownership-history:{self.family(res)}:{self.valued(objs[i])}-argument:mutating-the-result-changes-the-argument",
-                             f"{key}: r.{m}(..) on the RESULT changes the {rl[i]} that was passed in (the list is shared): {diff(b, a)}",
-                             {'history': [call_txt, f"r.{m}(..)", f"the {rl[i]} of the first call is no longer what it was: {diff(b, a)}"],
+                    ctx.fail(f"ownership-history:{self.family(res)}:{self.valued(pristine_objs[i])}-argument:mutating-the-result-changes-the-argument",
+                             f"{key}: r.{m}(..) on the RESULT changes the {rl[i]} that was passed in (it was captured by reference): {diff(b, a)}",
+                             {'history': [call_txt, f"r.{m}(..)" if not m.startswith(('op', '[', 'it', 'del')) else f"r {m}", f"the {rl[i]} of the first call is no longer what it was: {diff(b, a)}"],
                               'inputs_pickle_hex': _try_pickle(pristine)})
             # (b) mutate an argument afterwards, look at the result
-            for i in targets:
+            for i in (targets_b if m in self.MUTATORS else []):
                 args, kw = copy.deepcopy(pristine)
                 ok, res = self.guarded(f, args, kw)
                 if not ok:
@@ -1868,7 +1890,52 @@ class Harness:
             if takes_self:
                 variant = owner + '*' if (owner + '*' in P.regular and r.random() < 0.6) else owner
                 vals = [P.regular[variant]()] + vals
-            if not self.ownership(key, f, (vals, {}), roles) and t >= 1:
+            # every boolean / enum option of the callable, singly (check=False, norm=False, unit='deg', ..), besides the defaults
+            plans = [{}]
+            for p in opt:
+                k_, vs = self.option_values(p)
+                if vs and p.name != 'file':
+                    plans += [{p.name: v} for v in vs if v != p.default][:2]
+            plans = plans[:1 + (6 if t == 0 else 2)]
+            # parameters with a None / numeric default (x=None, arg=None, dest=None, value=None ..) are where constructors
+            # and converters receive their containers: an object of the owner's class (single / multi valued), lists and
+            # tuples of arrays, arrays -- each crossed with the option plans above
+            soft = [p for p in opt if self.option_values(p)[1] is None and p.name != 'file']
+            cplans = []
+            if t == 0:
+                for p in soft[:2]:
+                    cs = []
+                    for c in P.candidates(p.name, owner):
+                        if c not in cs and c in P.regular and (c[0] in 'LMV' or c.rstrip('*') in P.classes):
+                            cs.append(c)
+                    # lists / tuples of arrays and objects first (they hold a list), then matrices, then vectors
+                    rank = lambda c: 0 if (c[0] == 'L' or c.rstrip('*') in P.classes) else (1 if c[0] == 'M' else 2)
+                    cs.sort(key=rank)
+                    for c in cs[:14]:
+                        cplans.append((p.name, c))
+            qualified = False
+            for plan in plans:
+                args_ = copy.deepcopy(vals)
+                if self.ownership(key, f, (args_, dict(plan)), roles):
+                    qualified = True
+                elif not plan and not cplans:
+                    break
+            for pname, c in cplans:
+                first = True
+                for plan in plans:
+                    if pname in plan:
+                        continue
+                    kw_ = dict(plan)
+                    try:
+                        kw_[pname] = P.regular[c]()
+                    except Exception:
+                        break
+                    okq = self.ownership(key, f, (copy.deepcopy(vals), kw_), roles)
+                    qualified = qualified or okq
+                    if first and not okq:
+                        break                     # this container form is not accepted here (or gives no list-holding result)
+                    first = False
+            if not qualified and t >= 1:
                 break
 
     def intensify(self, rejected_fullnames, reached, total):
